@@ -2,6 +2,7 @@
 From Coq Require Import List Arith Bool NArith ZArith Lia.
 From Pike Require Import Base.Bytes Model.Key Model.LRU Model.Dispatcher
   Proofs.KeyProofs Proofs.LRUProofs Proofs.DispatcherProofs.
+From Pike Require Model.Sys Model.Multi Proofs.MultiProofs.
 Import ListNotations.
 
 (** Keys are injective in (method, host, URI) whenever method and host contain
@@ -41,6 +42,25 @@ Proof.
   split; [apply H1 | apply (di_fun hash d' I')].
 Qed.
 Print Assumptions C06_lookup_exact.
+
+(** In the composed cache (Model/Multi.v) a request, purge or store fault
+    addressed to key [k] leaves the protocol state of every other key untouched
+    -- status, response, waiters, store record, log -- except that a LOOKUP of
+    [k] may evict another key of the same shard, which for that key is exactly
+    the environment step [Evict] (its entry stops being the resident one;
+    requests already holding it keep it). *)
+Theorem C06_other_keys_untouched :
+  forall (K : Type) (keqb : K -> K -> bool), (forall a b, keqb a b = true <-> a = b) ->
+  forall (hash : K -> N) m k l m' k2,
+    (l = Pike.Model.Multi.MArrive k false \/ l = Pike.Model.Multi.MArrive k true \/
+     (exists i c, l = Pike.Model.Multi.MRun k i c) \/ (exists ok, l = Pike.Model.Multi.MPurge k ok) \/
+     (exists sc, l = Pike.Model.Multi.MCorrupt k sc)) ->
+    Pike.Model.Multi.mstep keqb hash m l = Some m' -> k2 <> k ->
+    Pike.Model.Multi.sys_of keqb m' k2 = Pike.Model.Multi.sys_of keqb m k2 \/
+    ((exists i c, l = Pike.Model.Multi.MRun k i c /\ Pike.Model.Multi.at_lookup (Pike.Model.Multi.sys_of keqb m k) i = true) /\
+     Pike.Model.Multi.sys_of keqb m' k2 = Pike.Model.Sys.set_cur (Pike.Model.Multi.sys_of keqb m k2) None).
+Proof. intros K keqb Hk hash. exact (Pike.Proofs.MultiProofs.other_keys_frame keqb Hk hash). Qed.
+Print Assumptions C06_other_keys_untouched.
 
 Example C06_nonvacuous :
   get_key [71;69;84]%N [97]%N [47;120]%N <> get_key [72;69;65;68]%N [97]%N [47;120]%N.
